@@ -12,7 +12,7 @@ pub mod prelude {
     pub use proto_vulcan::relation::{append, cons, empty, first, member, rest};
     pub use pvmc::conv::cmp::*;
     pub use pvmc::run::{DE, DU};
-    pub use pvmc::userrel::{lasto, neqo, pairo, same, zipo};
+    pub use pvmc::userrel::{cello, lasto, neqo, pairo, same, twiceo, zipo};
 
     /// Goal-valued Rust functions used as *expression* clauses (`crate::prelude::eq_int(x.clone(), 5)`)
     /// and from inside `fngoal` bodies.
@@ -90,7 +90,7 @@ fn main() {
     let rule = match id {
         "C13" => "E5: match / matche / matcha / matchu expressions generated as surface syntax and compiled with the current macros: every pattern of the pattern alphabet (wildcard, names, repeated names, literals, [], proper/improper list patterns, tuple-struct / named-struct / nested compound patterns, a name equal to an outer variable) x 10 matched terms x 5 bodies as single arms, and two/three-arm expressions with alternatives under all four operators; compared with the reference expansion (disjunction over arms x alternatives of t == p under arm-local fresh names, then the body; committed choice for matcha / matchu).",
         "C14" => "E5: the clause grammar as surface syntax compiled with the current macros: every literal kind in argument / list item / improper tail / nested position, `_`, nested proper and improper lists, tuple-struct and tuple constructors on both sides of == and != and as relation arguments in tree-term, {expr} and lterm! forms; conjunctions, conde with bare and bracketed arms, fresh, closure (nested), `fngoal` (plain and `move`, capturing a variable) and goal-valued Rust expressions (path call, block) in place of true / false / `x == n` in a quarter of the programs, onceo / conda / condu / dfs operator calls, loop{} prefixes under take, library and user relation calls, for over a Vec and over an LTerm list, project; proto_vulcan_query! with 1-3 query variables reported per variable in declaration order; compared with the reference interpreter on the same AST.",
-        _ => "E5: programs with shadowing (nested fresh clauses reusing a name, a fresh clause shadowing a query variable's name), the same names in sibling scopes, fresh clauses inside conde arms and closures, pattern arms binding the names of an enclosing fresh clause, and recursive relations (zipo, lasto) whose every unfolding introduces variables of the same names — each compiled as written and alpha-renamed (every binder unique): both must have the answers of the lexically scoped reference interpreter.",
+        _ => "E5: programs with shadowing (nested fresh clauses reusing a name, a fresh clause shadowing a query variable's name), the same names in sibling scopes, fresh clauses inside conde arms and closures, pattern arms binding the names of an enclosing fresh clause, and recursive relations (zipo, lasto) whose every unfolding introduces variables of the same names, one goal value posted twice (twiceo: each solving has its own fresh variables) — each compiled as written and alpha-renamed (every binder unique): both must have the answers of the lexically scoped reference interpreter.",
     };
     ctx.set("rule", json!(rule));
     let mut dens: HashMap<(Vec<T>, u32), Den> = HashMap::new();
